@@ -94,23 +94,6 @@ class BytesLoop(EBB3Hooks):
                 return lo_t if lo_t == hi_t else None
         return None
 
-    def loop(self, interp, node, st):
-        if not isinstance(node, ast.For):
-            return None
-        res = []
-        for it, s in interp.ev(node.iter, st):
-            if s.raised:
-                return None
-            if isinstance(it, Opaque) and it.label == 'm:to_bytes' and len(it.args) >= 2 and \
-                    isinstance(it.args[1], Sym) and it.args[1].is_const():
-                n = int(it.args[1].const_value())
-                if 0 < n <= 16:
-                    items = [Opaque('byte#%d' % k, (it,), 'int') for k in range(n)]
-                    res.extend(interp.unroll_for(node, items, 0, s))
-                    continue
-            return None
-        return res
-
 
 def sent_texts(o, params):
     out = []
@@ -215,6 +198,9 @@ def check_int32(ck, eng):
     ck.ob('C16-D1-reader-slots', rq, ok_slots,
           '%s reads slots %s; expected start_index+k for k=0..3, in order'
           % (rq, [repr(s) for s in (read_slots or [])]), rfn.loc(), key=rq + '::slots')
+    if rtuple is None:
+        raise AnalysisError('%s does not end in int.from_bytes(<the four values read>, ...); the '
+                            'join is done in a way this check cannot interpret' % rq)
     ck.ob('C16-D1-reader-encoding', rq, rtuple == (4, 'big', True),
           '%s joins (count, byteorder, signed) = %s; expected (4, big, True)' % (rq, rtuple),
           rfn.loc(), key=rq + '::encoding')
@@ -311,18 +297,24 @@ def check_nickname(ck, eng):
 def check_decode_map(ck, eng):
     fn = eng.method('motors_query_enabled')
     q = fn.qualname
-    dicts = [n for n in ast.walk(fn.node) if isinstance(n, ast.Dict)]
     want = {0: 0}
     for v in range(1, 6):
         want[2 ** (5 - v)] = v
     got = None
-    for d in dicts:
-        try:
-            got = {ast.literal_eval(k): ast.literal_eval(v) for k, v in zip(d.keys, d.values)}
-        except (ValueError, TypeError):
-            got = None
+    # the table the returned values are looked up in (a local literal, a class or module constant)
+    probe = [o for o in eng.run('motors_query_enabled', OK, inject=False) if acked(o)]
+    for o in probe:
+        v = o.value
+        if isinstance(v, Tup):
+            for it in v.items:
+                if isinstance(it, Opaque) and it.label == 'item' and isinstance(it.args[0], DictV):
+                    try:
+                        got = {int(k.const_value()): int(x.const_value())
+                               for k, x in it.args[0].items}
+                    except (AttributeError, TypeError, ValueError):
+                        got = None
     if got is None:
-        raise AnalysisError('%s: no literal decode map found' % q)
+        raise AnalysisError('%s: no constant decode table found in the returned values' % q)
     ck.ob('C16-D4-decode-map', q, got == want,
           '%s decodes QE values with %s; QE reports the microstep divisor (16,8,4,2,1) and EM '
           'takes 1..5, so the map must be %s' % (q, got, want), fn.loc(), key=q + '::map')
